@@ -115,7 +115,8 @@ ReadAll(w, k) ==
 \* read(2) then release_conn()
 Read2Rel(w, k) ==
     LET r == w.rs[k] IN
-    IF ~r.fp \/ r.len0 THEN [w |-> WRelease([w EXCEPT !.rs[k].fp = FALSE], k), out |-> "ok"]
+    \* read(2) finds the end of the body: _error_catcher releases; the explicit release_conn() is then a no-op
+    IF ~r.fp \/ r.len0 THEN [w |-> WRelease(WRelease([w EXCEPT !.rs[k].fp = FALSE], k), k), out |-> "ok"]
     ELSE IF r.fault \in {"none", "short"} THEN [w |-> WRelease([w EXCEPT !.rs[k].ker = FALSE], k), out |-> "ok"]
     ELSE [w |-> WBodyFail(w, k), out |-> BodyErr(r.fault)]
 
